@@ -233,13 +233,13 @@ def check_cmpops(ctx, R="C08.cmpop"):
                 kw_emitted.add(name)
     except Exception:
         kw_emitted = set()
-    rejects_kw = any(
-        isinstance(i, ast.If)
-        and f"{nodep}.keywords" in unparse(i.test)
-        and any(isinstance(x, ast.Return) and (x.value is None or (isinstance(x.value, ast.Constant) and x.value.value is None)) for x in i.body)
-        for i in walk_local(mu)
-    )
-    rejects_args = any(isinstance(i, ast.If) and f"len({nodep}.args)" in unparse(i.test) and any(isinstance(x, ast.Return) for x in i.body) for i in walk_local(mu))
+    # every answer other than None is given only for a call with exactly one positional and no keyword operand
+    answers_ = [r for r in lib.returns_of(mu) if r.value is not None and not (isinstance(r.value, ast.Constant) and r.value.value is None)]
+    if not answers_:
+        raise AnalysisError("shape not recognised: matchUnaryFunction has no positive answer")
+    K, A = f"{nodep}.keywords", f"{nodep}.args"
+    rejects_kw = all(lib.holds(lib.guard_tests(r, mu), f"len({K}) == 0", f"not {K}", f"len({K}) < 1", f"{K} == []") for r in answers_)
+    rejects_args = all(lib.holds(lib.guard_tests(r, mu), f"len({A}) == 1") for r in answers_)
     if rejects_kw and rejects_args:
         ctx.ok(R, mu, "matchUnaryFunction refuses calls with another positional or any keyword operand")
     else:
@@ -416,9 +416,10 @@ def check_polarity(ctx, R="C08.polarity"):
         if len(vis) == 1 and len(req) == 1:
             rq = req[0]
             for n_ in walk_local(fn):
-                if isinstance(n_, ast.If) and len(n_.body) == 1 and isinstance(n_.body[0], ast.Assign) and unparse(n_.body[0].targets[0]) == rq:
-                    val = n_.body[0].value
-                    if isinstance(val, ast.Attribute) and val.attr == "upper" and lib.ctext(n_.test) == lib.ctext_of(f"{unparse(val)} < {rq}"):
+                if isinstance(n_, ast.Assign) and unparse(n_.targets[0]) == rq and isinstance(n_.value, ast.Attribute) and n_.value.attr == "upper":
+                    # `rq = rel.upper` taken only when it tightens the bound
+                    want_ = lib.ctext_of(f"{unparse(n_.value)} < {rq}")
+                    if any(p_ and lib.ctext(t_) == want_ for t_, p_ in lib.flatten_conditions(lib.guard_tests(n_, fn))):
                         good_ = True
                 if isinstance(n_, ast.Assign) and unparse(n_.targets[0]) == rq and isinstance(n_.value, ast.Call) and dotted(n_.value.func) == "min" and rq in lib.names_loaded(n_.value) and any(isinstance(a, ast.Attribute) and a.attr == "upper" for a in n_.value.args):
                     good_ = True
@@ -752,18 +753,24 @@ def check_progress(ctx, R="C08.progress"):
         amt = fn.args.args[1].arg
         # the pass count is whatever local feeds `.dilation(iterations=...)`; the voxel size is whatever local is computed
         # from the mesh extents -- neither is recognised by its name
-        fed = set()
+        its = []  # (reporting node, expression of the pass count)
         for c in ast.walk(fn):
             if isinstance(c, ast.Call) and isinstance(c.func, ast.Attribute) and c.func.attr == "dilation":
                 a = lib.kw(c, "iterations") or (c.args[0] if c.args else None)
-                if a is not None:
-                    fed |= lib.names_loaded(a)
-        its = [s for s in ast.walk(fn) if isinstance(s, ast.Assign) and any(isinstance(t, ast.Name) and t.id in fed for t in s.targets)]
+                while isinstance(a, ast.UnaryOp) and isinstance(a.op, (ast.USub, ast.UAdd)):
+                    a = a.operand
+                if isinstance(a, ast.Name):
+                    v_ = lib.local_value(fn, a.id)
+                    if v_ is None:
+                        raise AnalysisError(f"shape not recognised: {q} iterations")
+                    its.append((lib.statement_of(v_), v_))
+                elif a is not None:
+                    its.append((lib.statement_of(a), a))
         if not its:
             raise AnalysisError(f"shape not recognised: {q} iterations")
         voxel_size = set(lib.locals_assigned(fn, lambda v: "self.mesh.extents" in unparse(v) and fn.args.args[2].arg in lib.names_loaded(v)))
-        for s in its:
-            calls = [c for c in ast.walk(s.value) if isinstance(c, ast.Call) and dotted(c.func) in ("math.floor", "math.ceil")]
+        for s, sval in its:
+            calls = [c for c in ast.walk(sval) if isinstance(c, ast.Call) and dotted(c.func) in ("math.floor", "math.ceil")]
             if len(calls) != 1 or not isinstance(calls[0].args[0], ast.BinOp) or not isinstance(calls[0].args[0].op, ast.Div):
                 raise AnalysisError(f"shape not recognised: {q} iteration count")
             c = calls[0]
@@ -783,10 +790,10 @@ def check_progress(ctx, R="C08.progress"):
                     f"for meshes with extents < 1 too few passes are made and the result is not an over-approximation (its sibling divides by the voxel size)",
                 )
             else:
-                adj = lin(s.value)
+                adj = lin(sval)
                 ctx.ok(R, s, f"{q}: passes = {need}({amt} / f(target_pitch)) {'- 1' if need == 'floor' else '+ 1'}")
             # safety margin direction
-            other = [t for t in _terms(s.value, fn) if isinstance(t[1], ast.Constant)]
+            other = [t for t in _terms(sval, fn) if isinstance(t[1], ast.Constant)]
             if other:
                 sgn = other[0][0] * (1 if other[0][1].value > 0 else -1)
                 if (need == "floor" and sgn > 0) or (need == "ceil" and sgn < 0):
